@@ -156,7 +156,10 @@ class CondModel:
         if cond['form'] == 'cmp_bits':
             return f'{t[0]} {cond["bop"]} {t[1]} {cond["op"]} {t[2]}'
         if cond['form'] == 'cmp':
-            return f'{t[0]} {cond["op"]} {t[1]}'
+            q = cond.get('quote', '')
+            if q and not t[1].isdigit():
+                q = ''              # only a plain decimal number is written in quotes (still compared as a number)
+            return f'{t[0]} {cond["op"]} {q}{t[1]}{q}'
         if cond['form'] == 'div':
             return f'{t[0]} / {t[1]} {cond["op"]} {t[2]}'
         if cond['form'] == 'bare':
@@ -390,7 +393,7 @@ def world_for(case, lines):
     g = case.get('glue', 0)
     if g:
         # comments on any line, with and without a blank before the ';' (a directive is a directive either way)
-        tails = ['', '', ' ; c', ';c', '\t;endif', ';#else']
+        tails = ['', '', ' ; c', ';c', '\t;endif', ';#else', ' ; taken from rom\\', ';x\\']
         lines = [ln + tails[(g * 7 + j * (1 + g % 5)) % len(tails)] if ';' not in ln else ln for j, ln in enumerate(lines)]
     return {'files': {f'{PDIR}/isa.yaml': gen.isa_text(isa_for(case['pre_symbols']), 'yaml'),
                       # stored as UTF-8; a lone surrogate stands for one raw byte (a file saved in a legacy code page)
@@ -557,7 +560,8 @@ def make_machine(stats, box):
             return {'form': form, 'terms': [draw(term), draw(st.integers(min_value=0, max_value=4)), draw(small)],
                     'bop': draw(st.sampled_from(['>>', '<<', '&'])), 'op': draw(st.sampled_from(CMP))}
         if form == 'cmp':
-            return {'form': form, 'terms': [draw(term), draw(term)], 'op': draw(st.sampled_from(CMP))}
+            return {'form': form, 'terms': [draw(term), draw(term)], 'op': draw(st.sampled_from(CMP)),
+                    'quote': draw(st.sampled_from(['', '', '"', "'"]))}
         if form == 'bare':
             return {'form': form, 'terms': [draw(term)]}
         if form == 'bare_minus':
